@@ -121,11 +121,13 @@ def _replay(pid: str, path: str) -> int:
     with open(path, encoding="utf-8") as f:
         witness = json.load(f)
     mode = witness.get("interpreter_mode", "plain")
+    hash_seed = str(witness.get("hash_seed", "0"))
     if os.environ.get("VERIF_SHARD_MODE") is None:
         os.environ["VERIF_SHARD_MODE"] = mode
-        if "optimized" in mode and not sys.flags.optimize:
-            # the witness comes from a shard that ran under `python -O`: replay it the same way
-            return subprocess.run([sys.executable, "-O", "-m", "vf.run", pid, "--replay", path], cwd=core.VERIF, check=False).returncode
+        if ("optimized" in mode and not sys.flags.optimize) or os.environ.get("PYTHONHASHSEED") != hash_seed:
+            # the witness comes from a shard that ran under `python -O` / with another hash seed: replay it the same way
+            flags = ["-O"] if "optimized" in mode else []
+            return subprocess.run([sys.executable] + flags + ["-m", "vf.run", pid, "--replay", path], cwd=core.VERIF, env=dict(os.environ, PYTHONHASHSEED=hash_seed), check=False).returncode
     mod = importlib.import_module(f"vf.checks.{pid.lower()}")
     _apply_interpreter_mode()
     ctx = core.Ctx(pid, witness.get("tier", "quick"), int(witness.get("seed", 0)), replaying=True)
@@ -174,9 +176,12 @@ def _orchestrate(pid: str, tier: str, seed: int) -> int:
     def run_shard(i: int):
         out = os.path.join(work, f"shard{i}.json")
         mode = shard_mode(i, nshards)
+        # string hashing: shard 0 always with PYTHONHASHSEED=0, the others with a seed of their own (set / dict-of-set iteration orders
+        # differ between deployments; the harness' own randomness does not depend on it - core.stable_hash, random.Random(seed))
+        hash_seed = "0" if i == 0 else str((seed * 31 + i * 7919) % 4294967295 or 1)
         cmd = [sys.executable] + (["-O"] if "optimized" in mode else []) + ["-m", "vf.run", pid, "--tier", tier, "--seed", str(seed), "--shard", f"{i}/{nshards}", "--out", out]
         try:
-            proc = subprocess.run(cmd, cwd=core.VERIF, env=dict(env, VERIF_SHARD_MODE=mode), timeout=timeout, capture_output=True, text=True, check=False)
+            proc = subprocess.run(cmd, cwd=core.VERIF, env=dict(env, VERIF_SHARD_MODE=mode, PYTHONHASHSEED=hash_seed), timeout=timeout, capture_output=True, text=True, check=False)
         except subprocess.TimeoutExpired:
             return {"status": "timeout", "reason": f"shard {i} exceeded the watchdog of {timeout}s"}
         if not os.path.exists(out):
